@@ -97,7 +97,11 @@ RULE = (
     "rgb / Kymo.shape queries on ONE object, compared answer by answer with a stateful model (start, memoised images): "
     "kymographs P<=3, 3-4 lines, k<=2, dead 1-2 whose photon stream starts at EVERY sample of the first line and just "
     "behind it, the other colours absent / complete / recorded after the item / late as well, asked in every order of "
-    "a first round, then all colours and rgb once more (quick: every 37th), plus seeded random sequences on random "
+    "a first round, then all colours and rgb once more (quick: every 37th), plus EVERY sequence of up to three queries on "
+    "small kymographs and scans without a late stream (quick: every 5th), each ALSO replayed query by query on NEW objects "
+    "(history independence; model: c02.kymopure/scanpure), plus regular kymographs lead<=2, k<=3, d<=3, P<=4, n<=4 with a "
+    "green stream 1 sample / half a line / a whole line late (start after the repair and the red image afterwards; quick: "
+    "every 4th), plus seeded random sequences on random "
     "kymographs and scans (colours full/absent/short/long/early/after/before/late/late-far); (b'') kymographs "
     "restricted to a window of whole lines; (c) seeded random kymos/scans (85% up to 8x8x3, 12% up "
     "to 24x24, 3% up to 64x64x5 with k<=8; constant or non-constant samples per pixel, per-line dead times, interleaved "
@@ -1053,6 +1057,34 @@ def seq_small_scope(quick):
                                                **gen_case("seq", lay, i, modes=modes, lateness=lateness, style="ids", fast=i % 3)}
 
 
+def seq_pure_small_scope(quick):
+    """objects WITHOUT a photon stream starting inside them (the family of answers_history_independent): small kymographs
+    and scans (both axis orders), colours full / short / absent / recorded after the item, EVERY sequence of up to three
+    queries over colours, rgb and (kymographs) Kymo.shape; each sequence is also replayed query by query on new objects"""
+    layouts = [
+        ("kymo", {"P": 2, "L": None, "lines": 2, "k": 1, "lead_in": 1, "dead": 1, "trunc": None}, {}),
+        ("kymo", {"P": 1, "L": None, "lines": 3, "k": 2, "lead_in": 0, "dead": 1, "trunc": 5}, {}),
+        ("scan", {"P": 2, "L": 2, "lines": 4, "k": 1, "lead_in": 0, "dead": 1, "trunc": None}, {"fast": 0, "slow": 1}),
+        ("scan", {"P": 2, "L": 2, "lines": 3, "k": 2, "lead_in": 1, "dead": 0, "trunc": None}, {"fast": 1, "slow": 0}),
+    ]
+    mode_sets = [
+        {"red": "full", "green": "short", "blue": "absent"},
+        {"red": "absent", "green": "full", "blue": "after"},
+        {"red": "early+short", "green": "absent", "blue": "full"},
+    ]
+    i = 0
+    for kind, lay, ax in layouts:
+        alphabet = (0, 1, 2, 3, 4) if kind == "kymo" else (0, 1, 2, 3)
+        for mi, modes in enumerate(mode_sets):
+            for n in (1, 2, 3):
+                for qs in itertools.product(alphabet, repeat=n):
+                    i += 1
+                    if quick and i % 5:
+                        continue
+                    yield {"stream": "seq-small-scope", "kind": kind, "queries": list(qs),
+                           **gen_case("seq", lay, 1000 + mi, modes=modes, style="ids", **ax)}
+
+
 def reg_small_scope(quick):
     """regular kymographs (the family of seek_regular_second_line / first_line_repair / fresh_after_repair) with a green
     stream starting 1 sample late, in the middle of the first line and on the first sample of the second line; plus
@@ -1115,6 +1147,7 @@ def cases(tier, rng):
     yield from window_cases(rng.fork("c02-window"), 120 if quick else 3000)
     yield from seq_small_scope(quick)
     yield from reg_small_scope(quick)
+    yield from seq_pure_small_scope(quick)
     yield from seq_random(rng.fork("c02-seq"), 500 if quick else 8000)
 
     # ---- (a) every info wave over {0,1,2} up to a length, direct call
